@@ -642,6 +642,18 @@ def check_c15(rec, names, symbols, seed):
     n += 1
     if text.count('_same_text_for_every_symbol_ = 1') != len(want_calls):
         raise Mis('c15-converter-output-not-inserted-once-per-symbol', got=text.count('_same_text_for_every_symbol_ = 1'), want=len(want_calls))
+    # a caller-reordered symbol list: a verbatim symbol placed before the equations keeps its place in the code
+    from fsic.parser import Symbol
+    vsym = Symbol(name=None, type=Type.VERBATIM, lags=None, leads=None, equation='`_verbatim_first_ = 1`', code='_verbatim_first_ = 1')
+    calls.clear()
+    text = fsic.build_model_definition([vsym] + list(symbols), converter=identity)
+    n += 1
+    if calls != [None] + want_calls:
+        raise Mis('c15-converter-order-with-verbatim-first', got=list(calls), want=[None] + want_calls)
+    if want_calls:
+        first_eq = next(s_.code for s_ in symbols if s_.name == want_calls[0])
+        if not (0 <= text.find('_verbatim_first_ = 1') < text.find(first_eq.splitlines()[0])):
+            raise Mis('c15-verbatim-symbol-not-in-symbol-order')
     for conv in (identity, wrapping):
         calls.clear()
         text = fsic.build_model_definition(symbols, converter=conv)
